@@ -1,18 +1,33 @@
 (* C17  Parsing time does not blow up with nesting or length.
    Kernel-checked on every run, for all inputs: every one of the 36 parse functions regenerated from
-   parser.rs opens with cache_check! and leaves only through the caching macros (removing one breaks
-   this theorem before any input is drawn). The packrat bound that follows - at most one body
-   execution per (nonterminal, position), i.e. misses <= 36 * (tokens + 1) - is stated
-   (C17_miss_bound_statement) and checked on the implementation's own counters (hook H2) for every
-   member of the scaling families and, through the C07 correspondence, the implementation's miss and
-   scan counts equal the model's on every explored token sequence; it is not yet a Coq theorem.
-   Machine time per step is outside any Gallina model and is measured. *)
+   parser.rs opens with cache_check! and leaves only through the caching macros; the generated
+   skeleton has no left recursion (every call made at the caller's own start position goes to a
+   nonterminal of strictly smaller rank); and from these, by induction over the interpreter of the
+   skeleton (Proofs/PackratProofs.v): the body of a parse function is executed at most once per
+   (nonterminal, position) - misses <= 36 * (tokens + 1) for EVERY token list - and the recursion
+   never exceeds its linear fuel. Removing a cache_check!, or introducing a left-recursive call,
+   changes a generated file and breaks an obligation before any input is drawn. The implementation's
+   own counters (hook H2) are compared with the bound on the scaling families and, through the C07
+   correspondence, equal the model's on every explored token sequence. Machine time per step is
+   outside any Gallina model and is measured. *)
 From Coq Require Import List ZArith NArith Bool Arith.
 Import ListNotations.
-Require Import Gram.Model.Token Gram.Model.Grammar Gram.Gen.ParserSkeleton Gram.Model.Parser Gram.Proofs.ParserProofs.
+Require Import Gram.Model.Token Gram.Model.Grammar Gram.Gen.ParserSkeleton Gram.Model.Parser Gram.Model.ParserPost Gram.Proofs.ParserProofs Gram.Proofs.PackratProofs.
 
-Definition C17_miss_bound_statement : Prop :=
-  forall toks, snd (fst (parse_stage1 toks true)) <= 36 * (length toks + 1).
+Theorem C17_miss_bound : forall toks, snd (fst (parse_stage1 toks true)) <= 36 * (length toks + 1).
+Proof. exact packrat_miss_bound. Qed.
+Check C17_miss_bound : forall toks, snd (fst (parse_stage1 toks true)) <= 36 * (length toks + 1).
+Print Assumptions C17_miss_bound.
+
+Theorem C17_no_left_recursion : forallb head_ok all_nts = true.
+Proof. exact no_left_recursion. Qed.
+Check C17_no_left_recursion : forallb head_ok all_nts = true.
+Print Assumptions C17_no_left_recursion.
+
+Theorem C17_parse_within_fuel : forall toks memo context, fst (fst (parse_top toks memo context)) <> POutOfFuel.
+Proof. exact parse_top_within_fuel. Qed.
+Check C17_parse_within_fuel : forall toks memo context, fst (fst (parse_top toks memo context)) <> POutOfFuel.
+Print Assumptions C17_parse_within_fuel.
 
 Theorem C17_all_memoised : forallb memoised all_nts = true.
 Proof. exact all_memoised. Qed.
